@@ -5,28 +5,14 @@
 package document
 
 import (
-	"sort"
-	"strings"
-
+	"errors"
 	"github.com/yorkie-team/yorkie/internal/zzvsym"
 	"github.com/yorkie-team/yorkie/pkg/document/json"
 	"github.com/yorkie-team/yorkie/pkg/document/presence"
 	"github.com/yorkie-team/yorkie/pkg/document/time"
 )
 
-// vPresenceOf renders what replica d knows about actor id ("<none>" if absent).
-func vPresenceOf(d *Document, id time.ActorID) string {
-	data, ok := d.AllPresences()[id.String()]
-	if !ok {
-		return "<none>"
-	}
-	var parts []string
-	for k, v := range data {
-		parts = append(parts, k+"="+v)
-	}
-	sort.Strings(parts)
-	return "{" + strings.Join(parts, ",") + "}"
-}
+var errRejected = errors.New("rejected")
 
 func vAttach(d *Document, color string) {
 	err := d.Update(func(root *json.Object, p *presence.Presence) error {
@@ -67,9 +53,16 @@ func VerifR9PresenceConverge() {
 	vSkew(a, "skewA")
 	vSkew(b, "skewB")
 	bDetached := false
-	steps := 2 + zzvsym.Tier()
+	steps := 3 + zzvsym.Tier()
 	for i := 0; i < steps; i++ {
-		switch zzvsym.IntRange(vName("step", i), 0, 4) {
+		switch zzvsym.IntRange(vName("step", i), 0, 6) {
+		case 5: // the application reads the presences (hands out / shares the internal maps)
+			_ = a.AllPresences()
+			_ = b.AllPresences()
+			_ = a.Root()
+			_ = b.Root()
+		case 6: // a rejected update on A drops and later re-creates its working copy
+			_ = a.Update(func(root *json.Object, p *presence.Presence) error { return errRejected })
 		case 0: // A changes its presence
 			a.Update(func(root *json.Object, p *presence.Presence) error {
 				p.Set("color", vName("a", i))
